@@ -36,11 +36,16 @@ EntryVariants == {Entry(Prefix \o Rel[i], "ok") : i \in 1..Len(Rel)}
                  \cup {Entry(Prefix \o n, "big") : n \in {S("go.mod"), S("LICENSE"), S("a.go")}}
                  \cup {Entry(Prefix \o S("a.go"), "over"), Entry(Prefix \o S("a.go"), "huge"), Entry(Prefix \o S("go.mod"), "huge"), Entry(Prefix \o S("d/"), "huge")}
 
+\* archives of four entries are built over a core of the variants (the full set to the fourth power is 1.5 million archives)
+CoreEntries == {Entry(Prefix \o Rel[i], "ok") : i \in {1, 2, 3, 5, 6, 7, 10, 15}}
+               \cup {Entry(Prefix \o S("a.go"), s) : s \in {"lie-more", "lie-zero", "huge"}}
+               \cup {Entry(PrefixVariants[2] \o S("a.go"), "ok"), Entry(Prefix \o S("go.mod"), "big")}
+EV == IF MaxZip >= 4 THEN CoreEntries ELSE EntryVariants
 Init == phase = "hub" /\ lst = <<>>
 Next == \/ /\ phase = "hub" /\ MaxList > 0 /\ phase' = "files" /\ lst' \in {<<f>> : f \in AllFiles}
         \/ /\ phase = "files" /\ Len(lst) < MaxList /\ phase' = "files" /\ \E f \in AllFiles : lst' = Append(lst, f)
-        \/ /\ phase = "hub" /\ MaxZip > 0 /\ phase' = "zip" /\ lst' \in {<<e>> : e \in EntryVariants}
-        \/ /\ phase = "zip" /\ Len(lst) < MaxZip /\ phase' = "zip" /\ \E e \in EntryVariants : lst' = Append(lst, e)
+        \/ /\ phase = "hub" /\ MaxZip > 0 /\ phase' = "zip" /\ lst' \in {<<e>> : e \in EV}
+        \/ /\ phase = "zip" /\ Len(lst) < MaxZip /\ phase' = "zip" /\ \E e \in EV : lst' = Append(lst, e)
 
 G == Ge124(lst)
 Cl == Classify(lst, G)
